@@ -97,7 +97,7 @@ pub(crate) fn const_str(e: &syn::Expr) -> Option<String> {
 /// (`.map(Cow::Owned)`, `.map(Into::into)`, `.map(|x| <peels to x>)`) and trailing `.iter()`, `.into_iter()`, `.cloned()`,
 /// `.copied()` are dropped as well (they change how a sequence is traversed, not its elements or their order).
 pub(crate) fn peel(e: &syn::Expr) -> syn::Expr {
-    const NULLARY: &[&str] = &["as_str", "as_ref", "to_owned", "to_string", "into", "clone", "borrow", "deref", "iter", "into_iter", "cloned", "copied"];
+    const NULLARY: &[&str] = &["as_str", "as_ref", "as_deref", "to_owned", "to_string", "into", "clone", "borrow", "deref", "iter", "into_iter", "cloned", "copied"];
     let e = strip_ref(e);
     match e {
         syn::Expr::MethodCall(m) if m.args.is_empty() && NULLARY.contains(&m.method.to_string().as_str()) => peel(&m.receiver),
